@@ -242,6 +242,14 @@ pub fn judge_c12(rec: &mut Recorder, c: &HistCase, ex: Exec, _hello: &Value) -> 
             return rec.fail(&sig("leaked"), format!("lifetime {li} ({} exit, {installs} installs): {} trampoline mapping(s) never released: {:x?}; case {c:?}", l.exit, live.len(), live.keys().collect::<Vec<_>>()));
         }
         // and the kernel agrees: executable anonymous pages are what they were before
+        // a page somebody else mapped a moment before the injector asked for it is not the
+        // injector's: it must survive the lifetime with its content
+        for (p, mapped, intact) in &l.raced {
+            rec.class("somebody-else-mapped-the-hinted-page-first");
+            if !*mapped || !*intact {
+                return rec.fail(&sig(if *mapped { "foreign-mapping-overwritten" } else { "foreign-mapping-unmapped" }), format!("lifetime {li}: page {p:#x} was mapped by another part of the program just before the injector's mmap with that hint reached the kernel; after the lifetime it is {}: the injector {} memory it did not allocate; case {c:?}", if *mapped { "still mapped but its content has changed" } else { "gone" }, if *mapped { "wrote into" } else { "unmapped" }));
+            }
+        }
         // (pages on which the harness has mapped code of its own - on addresses the injector had
         // released - are somebody else's: they must all still be there, and they are not counted)
         let mut squat: BTreeSet<u64> = l.squat_pages.iter().copied().collect();
